@@ -25,7 +25,7 @@ REPO = os.path.abspath(os.environ.get('VERIF_REPO', '/repo'))
 PYTHON = sys.executable
 REPLAY_DIR = os.environ.get('VERIF_REPLAY_DIR') or os.path.join(VERIF, 'replays')
 EVIDENCE_DIR = os.environ.get('VERIF_EVIDENCE_DIR') or os.path.join(VERIF, 'evidence')
-FINDINGS_FILE = os.path.join(VERIF, 'known_findings.json')
+FINDINGS_FILE = os.environ.get('VERIF_FINDINGS_FILE') or os.path.join(VERIF, 'known_findings.json')   # (override: self-tests only)
 
 _real_time = time.time
 _real_perf = time.perf_counter
